@@ -307,6 +307,9 @@ type rawRun struct {
 	probed                 bool
 	sendingProbe           bool
 	straddled              bool
+	pRecv                  [][2]uint32 // absolute ranges of conforming peer data injected so far
+	pLast                  [2]uint32   // the most recent of them (zero length: none / not attributable)
+	peerRtx                int
 	probeInsideInternal    bool
 	straddleSlack          int
 	shrunk                 bool
@@ -653,6 +656,7 @@ func (x *rawRun) onEmit(d *Decoded) {
 			x.eEdge = edge
 		}
 		x.haveEEdge = true
+		x.sackCheck(t)
 		if x.probed && x.has('w') && x.pSentMax != 0 && ref.SeqLT(x.pSentMax, t.Ack) {
 			key := "beyond-window-accepted"
 			if x.probeInsideInternal {
@@ -1089,7 +1093,75 @@ func (x *rawRun) peerSendData(off, n int, fin bool) {
 	if end := x.cfg.PeerISS + 1 + uint32(off+n); !x.sendingProbe && (x.pSentMax == 0 || ref.SeqLT(x.pSentMax, end)) {
 		x.pSentMax = end
 	}
+	if !x.sendingProbe && n > 0 {
+		st := x.cfg.PeerISS + 1 + uint32(off)
+		x.pRecv = append(x.pRecv, [2]uint32{st, st + uint32(n)})
+		x.pLast = [2]uint32{st, st + uint32(n)}
+	} else {
+		x.pLast = [2]uint32{}
+	}
 	x.r.InjectIP(ref.ProtoTCP, ref.BuildTCP(peerPort, x.sPort, x.cfg.PeerISS+1+uint32(off), x.rcvNxt, flags, uint16(x.cfg.PeerWnd), x.segOpts(nil), x.pData[off:off+n], x.r.pAddr, x.r.sAddr))
+	x.scanEmitted() // what the stack answers to this segment is judged against the state right now
+}
+
+// sackCheck: the SACK blocks of one ACK of the stack against what the peer has sent so far
+// (RFC 2018 4): every block lies above the cumulative ACK and covers only bytes that were
+// received; the first block contains the segment that triggered the ACK and is exactly the
+// maximal run of received bytes around it.
+func (x *rawRun) sackCheck(t *ref.TCP) {
+	if len(t.Opts.SACK) == 0 || !(x.has('s') || x.has('w')) {
+		return
+	}
+	covered := func(a, b uint32) bool { // [a,b) inside the union of received ranges
+		for ref.SeqLT(a, b) {
+			moved := false
+			for _, r := range x.pRecv {
+				if ref.SeqLEQ(r[0], a) && ref.SeqLT(a, r[1]) {
+					a = r[1]
+					moved = true
+				}
+			}
+			if !moved {
+				return false
+			}
+		}
+		return true
+	}
+	for i, b := range t.Opts.SACK {
+		if !ref.SeqLT(b.Start, b.End) || !ref.SeqLT(t.Ack, b.Start) && b.Start != t.Ack || !covered(b.Start, b.End) {
+			if !ref.SeqLT(b.Start, b.End) || ref.SeqLT(b.Start, t.Ack) || !covered(b.Start, b.End) {
+				x.fail("C01", "sack-block-wrong", "sack-block-wrong", "ACK +%d carries SACK block %d [+%d,+%d), which is empty, below the cumulative ACK or covers bytes the peer never sent", t.Ack-x.cfg.PeerISS-1, i, b.Start-x.cfg.PeerISS-1, b.End-x.cfg.PeerISS-1)
+				return
+			}
+		}
+	}
+	if x.pLast[0] == x.pLast[1] || !ref.SeqLT(t.Ack, x.pLast[1]) || x.shrunk || !(x.cfg.RcvBuf == 0 || len(x.pData) < x.cfg.RcvBuf) {
+		return
+	}
+	// maximal run around the most recent segment, above the cumulative ACK
+	lo, hi := x.pLast[0], x.pLast[1]
+	if ref.SeqLT(lo, t.Ack) {
+		lo = t.Ack
+	}
+	for changed := true; changed; {
+		changed = false
+		for _, r := range x.pRecv {
+			if ref.SeqLT(r[0], lo) && ref.SeqLEQ(lo, r[1]) && ref.SeqLT(t.Ack, r[1]) {
+				lo = r[0]
+				if ref.SeqLT(lo, t.Ack) {
+					lo = t.Ack
+				}
+				changed = true
+			}
+			if ref.SeqLEQ(r[0], hi) && ref.SeqLT(hi, r[1]) {
+				hi = r[1]
+				changed = true
+			}
+		}
+	}
+	if b := t.Opts.SACK[0]; b.Start != lo || b.End != hi {
+		x.fail("C01", "sack-first-block", "sack-first-block", "the segment [+%d,+%d) just arrived out of order (cumulative ACK +%d); the first SACK block of the answer is [+%d,+%d), the received run around that segment is [+%d,+%d)", x.pLast[0]-x.cfg.PeerISS-1, x.pLast[1]-x.cfg.PeerISS-1, t.Ack-x.cfg.PeerISS-1, b.Start-x.cfg.PeerISS-1, b.End-x.cfg.PeerISS-1, lo-x.cfg.PeerISS-1, hi-x.cfg.PeerISS-1)
+	}
 }
 
 // peerSendBatch sends several peer data segments that reach the connection in one batch.
@@ -1101,7 +1173,9 @@ func (x *rawRun) peerSendBatch(segs ...[2]int) {
 			x.pSentMax = end
 		}
 		pl = append(pl, ref.BuildTCP(peerPort, x.sPort, seq, x.rcvNxt, ref.ACK|ref.PSH, uint16(x.cfg.PeerWnd), x.segOpts(nil), x.pData[sg[0]:sg[0]+sg[1]], x.r.pAddr, x.r.sAddr))
+		x.pRecv = append(x.pRecv, [2]uint32{seq, seq + uint32(sg[1])})
 	}
+	x.pLast = [2]uint32{}
 	x.r.InjectBatch(x.ep, ref.ProtoTCP, pl...)
 }
 
@@ -1206,6 +1280,8 @@ func (x *rawRun) menu() []action {
 				if end := seq + uint32(s[1]); x.pSentMax == 0 || ref.SeqLT(x.pSentMax, end) {
 					x.pSentMax = end
 				}
+				x.pRecv = append(x.pRecv, [2]uint32{seq, seq + uint32(s[1])})
+				x.pLast = [2]uint32{}
 				x.r.InjectBatch(x.ep, ref.ProtoTCP,
 					ref.BuildTCP(peerPort, x.sPort, seq, x.rcvNxt, ref.ACK|ref.PSH, uint16(x.cfg.PeerWnd), x.segOpts(nil), x.pData[s[0]:s[0]+s[1]], x.r.pAddr, x.r.sAddr),
 					ref.BuildTCP(peerPort, x.sPort, seq+uint32(s[1]), x.rcvNxt, ref.ACK|ref.PSH, uint16(x.cfg.PeerWnd), x.segOpts(nil), []byte("XXXXXXXX"), x.r.pAddr, x.r.sAddr))
@@ -1217,6 +1293,9 @@ func (x *rawRun) menu() []action {
 			sg := x.pSegs[0]
 			m = append(m, action{name: fmt.Sprintf("non-conforming peer sends [%d,+%d) although it lies wholly beyond the advertised window", sg[0], sg[1]), cost: 1, do: func() {
 				x.probed = true
+				if st := tcp.VerifDump(x.ep); st.HasRcv && x.stackShift() > 0 && ref.SeqLT(x.sEdge, st.RcvAcc) && st.RcvAcc-x.sEdge < 1<<x.stackShift() && x.cfg.PeerISS+1+uint32(sg[0]) == x.sEdge {
+					x.probeInsideInternal = true // D38: the segment starts inside the stack's own (unscaled) window
+				}
 				x.sendingProbe = true
 				x.peerSendData(sg[0], sg[1], false) // not counted as sent: the peer sends it again once the window allows
 				x.sendingProbe = false
@@ -1287,9 +1366,26 @@ func (x *rawRun) menu() []action {
 					x.peerSendData(s[0], s[1]+ext, false)
 				}})
 			}
+			if len(x.pSegs) >= 9 && x.fits(x.pSegs[8]) {
+				// islands: every other segment arrives first (4-5 disjoint ranges wait out of order, so
+				// the stack's ACKs carry as many SACK blocks as fit), then the gaps are filled in order
+				segs := append([][2]int(nil), x.pSegs[:9]...)
+				m = append(m, action{name: fmt.Sprintf("peer sends segments 2,4,6,8 of the next nine first, then 9,1,3,5,7 ([%d,+%d) ...)", s[0], s[1]), cost: 1, do: func() {
+					x.pSegs = x.pSegs[9:]
+					for _, k := range []int{1, 3, 5, 7, 8, 0, 2, 4, 6} {
+						x.peerSendData(segs[k][0], segs[k][1], false)
+					}
+				}})
+			}
 			if len(x.pSegs) >= 3 && x.fits(x.pSegs[1]) && x.fits(x.pSegs[2]) {
 				// two segments wait out of order behind a hole
 				a, b, c := x.pSegs[0], x.pSegs[1], x.pSegs[2]
+				m = append(m, action{name: fmt.Sprintf("peer sends [%d,+%d), [%d,+%d) and only then [%d,+%d)", b[0], b[1], c[0], c[1], a[0], a[1]), cost: 1, do: func() {
+					x.pSegs = x.pSegs[3:]
+					x.peerSendData(b[0], b[1], false)
+					x.peerSendData(c[0], c[1], false)
+					x.peerSendData(a[0], a[1], false)
+				}})
 				m = append(m, action{name: fmt.Sprintf("peer sends [%d,+%d), [%d,+%d), [%d,+%d) in reverse order", a[0], a[1], b[0], b[1], c[0], c[1]), cost: 1, do: func() {
 					x.pSegs = x.pSegs[3:]
 					x.peerSendData(c[0], c[1], false)
@@ -1308,9 +1404,29 @@ func (x *rawRun) menu() []action {
 			// data beyond the advertised window must never be delivered
 			m = append(m, action{name: "peer sends a segment far beyond the advertised window", cost: 1, do: func() {
 				far := x.sEdge + 1000
+				x.pRecv = append(x.pRecv, [2]uint32{far, far + 8}) // (the stack may hold it out of order and report it; it must never deliver it)
+				x.pLast = [2]uint32{}
 				x.r.InjectIP(ref.ProtoTCP, ref.BuildTCP(peerPort, x.sPort, far, x.rcvNxt, ref.ACK|ref.PSH, uint16(x.cfg.PeerWnd), x.segOpts(nil), []byte("XXXXXXXX"), x.r.pAddr, x.r.sAddr))
 			}})
 		}
+	case x.shrunk && x.established && x.pAcked != 0 && x.pSentMax != 0 && ref.SeqLT(x.pAcked, x.pSentMax) && ref.SeqLT(x.pAcked, x.sEdge) && x.peerRtx < 20:
+		// the application shrank its receive buffer, so the stack may have dropped segments that
+		// arrived out of order (its out-of-order budget shrank too): a real peer retransmits what
+		// is not acknowledged when its timer fires
+		off := int(x.pAcked - x.cfg.PeerISS - 1)
+		n := int(x.pSentMax - x.pAcked)
+		if r := int(x.sEdge - x.pAcked); r < n {
+			n = r
+		}
+		if n > 100 {
+			n = 100
+		}
+		m = append(m, action{name: fmt.Sprintf("peer retransmits [%d,+%d) (its retransmission timer; not acknowledged so far)", off, n), do: func() {
+			x.peerRtx++
+			x.sendingProbe = true
+			x.peerSendData(off, n, false)
+			x.sendingProbe = false
+		}})
 	case len(timers) > 0 && !horizon:
 		m = append(m, action{name: fmt.Sprintf("timer(+%v)", timers[0]), do: func() {
 			x.timeoutsFired++
